@@ -22,6 +22,10 @@ if TYPE_CHECKING:  # pragma: no cover
 SUPERSCRIPTS = {
     "-": "⁻",
     ".": ".",  # There does not seem to be a superscript '.' in Unicode yet
+    # floats and Decimals may spell their own exponent (1e-16, 1E+30)
+    "+": "⁺",
+    "e": "ᵉ",
+    "E": "ᴱ",
     **{
         str(i): v
         for i, v in enumerate(["⁰", "¹", "²", "³", "⁴", "⁵", "⁶", "⁷", "⁸", "⁹"])
